@@ -313,6 +313,26 @@ pub fn jacc_cases(r: &mut Rng, exhaustive_len: usize, random_n: usize) -> Vec<Ca
     for (i, ch) in ops.chunks(500).enumerate() {
         cases.push(Case { name: format!("jaccr-{}", i), lang: "none".to_string(), stream: "jacc-random-long", ops: ch.to_vec() });
     }
+    // growth boundaries of the two per-instance buffers: on a fresh instance a short pair that leaves the two buffers at
+    // different lengths (d more distinct items on one side), then pairs whose lengths sit on either side of the
+    // initial capacity and of its doublings
+    let distinct = |n: usize, off: usize| -> Vec<char> { (0..n).map(|i| alpha[(i + off) % alpha.len()]).collect() };
+    let mut k = 0;
+    for d in 0..4usize {
+        for n in [20usize, 21, 22, 24, 40, 41, 42, 45, 80, 81] {
+            for flip in [false, true] {
+                let (s1, s2) = (distinct(3 + d, 0), distinct(3, 1));
+                let (l1, l2) = (distinct(n, 2), distinct(n + d, 5));
+                let mut ops = vec![];
+                ops.push(if flip { Op::Jacc(s2.clone(), s1.clone()) } else { Op::Jacc(s1.clone(), s2.clone()) });
+                ops.push(Op::Jacc(l1.clone(), l1.clone()));
+                ops.push(if flip { Op::Jacc(l2.clone(), l1.clone()) } else { Op::Jacc(l1.clone(), l2.clone()) });
+                ops.push(Op::Jacc(s1.clone(), l2.clone()));
+                cases.push(Case { name: format!("jaccg-{}", k), lang: "none".to_string(), stream: "jacc-growth-boundaries", ops });
+                k += 1;
+            }
+        }
+    }
     cases
 }
 
